@@ -51,4 +51,12 @@ DeliveredOK(hist, start, sc, delivered, gotInvalidate) ==
   /\ Len(delivered) = Len(D)
   /\ \A i \in 1..Len(D) : delivered[i] = hist[D[i]].id
   /\ gotInvalidate = (Len(D) > 0 /\ Invalidating(hist[D[Len(D)]], sc))
+
+(* a consumer that may have fallen behind retention: what it received is a gap-free prefix of its deliveries, and it *)
+(* stops short of them only by failing with the lost-position error                                               *)
+DeliveredPrefixOK(hist, start, sc, delivered, lost) ==
+  LET D == Deliveries(hist, start, sc) IN
+  /\ Len(delivered) <= Len(D)
+  /\ \A i \in 1..Len(delivered) : delivered[i] = hist[D[i]].id
+  /\ (Len(delivered) < Len(D) => lost)
 =============================================================================
